@@ -247,9 +247,13 @@ FiniteB == [id |-> Id("finite"), labels |-> Labels("finite"),
                          [op |-> "qtable", h |-> 1, dim |-> 3, sph |-> sph, props |-> AllProps, may_throw |-> TRUE, rows |-> Rows] >>]
 (* C01: a twin built from the same file answers bit for bit the same; every block of a batched reply is the property
    asked alone; the reversed list gives the reversed sequence of blocks *)
+(* ... and the other public query, distance_to_plane for every slab and fault of the document, asked at the same point right
+   before (on the first world only), does not change anything *)
+LineNames == LET idx == {k \in 1..Len(feats) : IsLine(feats[k].type)} IN [i \in 1..Cardinality(idx) |-> "f" \o ToString(SetToSeq(idx)[i])]
 PurityB == [id |-> Id("purity"), labels |-> Labels("purity"),
             steps |-> << [op |-> "create", h |-> 1, wb |-> Doc, expect |-> "any"], [op |-> "create", h |-> 2, wb |-> Doc, expect |-> "any"],
-                         [op |-> "qtable", h |-> 1, h2 |-> 2, dim |-> 3, sph |-> sph, props |-> AllProps, may_throw |-> TRUE, blocks |-> TRUE, rows |-> Rows] >>]
+                         [op |-> "qtable", h |-> 1, h2 |-> 2, dim |-> 3, sph |-> sph, props |-> AllProps, may_throw |-> TRUE, blocks |-> TRUE,
+                          pre_dist |-> LineNames, rows |-> Rows] >>]
 (* C07: the same document with the acceleration shortcuts neutralised (hook) answers bit for bit the same *)
 CullB == [id |-> Id("culling"), labels |-> Labels("culling"),
           steps |-> << [op |-> "create", h |-> 1, wb |-> Doc, expect |-> "any"], [op |-> "create", h |-> 2, wb |-> Doc, expect |-> "any", culling |-> FALSE],
